@@ -189,6 +189,11 @@ def make_real_self(c, fields):
             pass
     if issubclass(cls, list):
         raise NotCheckable("list subclass without make_self")
+    if getattr(cls, "__abstractmethods__", None):
+        # an abstract base whose concrete method is under contract (BaseScreen.start/stop): the receiver is an
+        # instance of a subclass that adds nothing but the permission to be instantiated
+        cls = type(cls)(cls.__name__, (cls,), {"__module__": cls.__module__})
+        cls.__abstractmethods__ = frozenset()
     obj = object.__new__(cls)
     for k, v in fields.items():
         try:
@@ -233,6 +238,10 @@ def xcheck_contract(key, n_cases, seed):
     c = REGISTRY[key]
     if getattr(c, "is_lemma", False) or getattr(c, "static_only", False) or c.assumed:
         return {"status": "skipped", "cases": 0, "detail": "not a function contract"}
+    if getattr(c, "no_xcheck", None):
+        # the contract states why its symbolic result cannot be compared with the native one (e.g. a `call_real`
+        # hook that abstracts a real callee's return value)
+        return {"status": "skipped", "cases": 0, "detail": "contract opts out: " + str(c.no_xcheck)}
     if getattr(c, "globals_", None) or getattr(c, "setup", None) is not None:
         return {"status": "skipped", "cases": 0, "detail": "abstract inputs (globals / setup)"}
     shapes = dict(c.params)
